@@ -12,6 +12,10 @@ def main():
     for fam in ("like", "pawncap", "promo", "castle"):
         for sh in ([chk.seed % nsh, (chk.seed + 3) % nsh] if q else range(nsh)):
             jobs.append((fam, sh))
+    # every way a move gives check (Gen_Movegen family "givechk": direct, unmasked, through the pawn removed en passant,
+    # castling rook, promoted piece): the check suffix
+    for sh in ([chk.seed % nsh, (chk.seed + 3) % nsh] if q else range(nsh)):
+        jobs.append(("givechk", sh))
     # positions from play
     base = os.path.join(chk.outdir, "walk")
     vlib.harness(hb, ["walk", "--seed", chk.seed, "--events", 1500 if q else 12000, "--files", 4 if q else 16, "--out", base])
@@ -22,6 +26,14 @@ def main():
         fam, sh = job
         if fam == "walk":
             p = "%s.%d" % (base, sh)
+        elif fam == "givechk":
+            cfg = os.path.join(chk.outdir, "gs_%s_%d.cfg" % (fam, sh))
+            games.gen_cfg(cfg, {"FAMILY": fam, "SHARD": sh, "NSHARDS": nsh, "DENSITY": 32 if q else 4}, "INIT Init\nNEXT Next\n")
+            g = vlib.tlc("Gen_Movegen", cfg=cfg, timeout=3000, xmx="2g")
+            if g.error:
+                raise vlib.ToolError("Gen_Movegen: " + g.error)
+            p = os.path.join(chk.outdir, "gs_%s_%d.ndjson" % (fam, sh))
+            vlib.write_ndjson(p, [d for t, d in g.reports if t == "GEN"])
         else:
             cfg = os.path.join(chk.outdir, "gs_%s_%d.cfg" % (fam, sh))
             games.gen_cfg(cfg, {"FAMILY": fam, "SHARD": sh, "NSHARDS": nsh, "DENSITY": 6 if q else 1}, "INIT Init\nNEXT Next\n")
@@ -50,7 +62,7 @@ def main():
             det = d["detail"]
             chk.violation("%s|%s|%s" % (d["what"], det.get("fen"), det.get("mv")), d["what"], d,
                           replay={"kind": "san-position", "fen": det.get("fen"), "events": ev})
-    for f in ("like", "pawncap", "promo", "castle", "walk"):
+    for f in ("like", "pawncap", "promo", "castle", "givechk", "walk"):
         if fams.get(f, 0) == 0:
             raise vlib.ToolError("family %s produced nothing" % f)
     chk.cov.update({
